@@ -23,7 +23,8 @@ RULE = (
     "next message / run exactly one loop iteration / complete one awaitable without running the loop), enumerated up to a depth "
     "bound, so that races between a completion's wake-up and the next routed message are reached; "
     "process_message returns. One message of a burst may be long (3.3 kB) or huge (150 kB: beyond any plausible internal slice size). "
-    "Each explored schedule is one evaluation; non-trivial: some connection had >= 2 unfinished sends at a "
+    "'long-stall': one connection never completes its first write while 3000 (quick) / 20000 (thorough) messages are routed; the others "
+    "must receive all of them. Each explored schedule is one evaluation; non-trivial: some connection had >= 2 unfinished sends at a "
     "choice point. Schedules of one configuration are distinct by construction."
 )
 ASSUMPTIONS = [
@@ -148,8 +149,8 @@ def run_schedule(conns, msgs_fn, gaps, stalled, choose):  # noqa: C901
             k = choose(len(pend))
             rig.release(*pend[k])
             steps += 1
-            if steps > 10000:
-                raise Failure("schedule-does-not-end", "more than 10000 releases")
+            if steps > max(10000, 20 * len(msgs) * len(conns)):
+                raise Failure("schedule-does-not-end", f"more than {max(10000, 20 * len(msgs) * len(conns))} releases")
         for ci, c in enumerate(rig.conns):
             out = rig.output(c)
             if c["stalled"]:
@@ -308,7 +309,15 @@ def check_interleave(case):
     return Info(n_eval=counters["n"], n_nontrivial=counters["n"] if n >= 2 else 0, label_counts={"interleave-" + "+".join(conns): counters["n"], "interleave-truncated": int(ex.truncated)})
 
 
-SUBCHECKS = {"explore": check_config, "schedule": check_schedule, "bursts": check_schedule, "interleave": check_interleave}
+def check_long_stall(case):
+    """One connection never completes its first write while thousands of messages are routed: however long that lasts, it
+    delays only itself - every other connection gets every message, whole and in order (first-come release order).
+    case: {"conns": [...], "n": int, "stalled": i, "gaps": [...]}"""
+    nt = run_schedule(case["conns"], lambda: fixed_messages(case["n"]), case.get("gaps", [False]), case["stalled"], lambda k: 0)
+    return Info(nontrivial=bool(nt), labels=[f"n={case['n']}", "+".join(case["conns"])])
+
+
+SUBCHECKS = {"long-stall": check_long_stall, "explore": check_config, "schedule": check_schedule, "bursts": check_schedule, "interleave": check_interleave}
 
 
 def configs(tier):
@@ -362,3 +371,6 @@ def run(ctx):
     cnt2 = ctx.each("interleave", inter, check_interleave, stop_after=3, timeout=ctx.scale(600, 3000))
     ctx.exhaustive["interleave"] = {"complete": True, "n_configs": cnt2, "bound": "every sequence of {route next message, run one loop iteration, complete one pending awaitable} up to max_steps choice points per configuration (then finished deterministically); a configuration whose schedule count exceeds max_runs is marked truncated in coverage.classes"}
     ctx.hyp("bursts", burst_case, check_schedule, ctx.scale(200, 5000))
+    n_long = ctx.scale(3000, 20000)
+    longs = [{"conns": c, "n": n_long, "stalled": s_, "gaps": g} for c, s_ in ((["tcp", "tcp", "tcp"], 0), (["tcp", "tcp", "tty"], 1), (["tty", "tcp"], 0)) for g in ([False], [True, False])]
+    ctx.each("long-stall", longs, check_long_stall, stop_after=2, timeout=ctx.scale(300, 1200))
